@@ -186,8 +186,9 @@ def ag_edge_origin(eng, res, rule="R-AG-EDGE-ORIGIN"):
     ok = len(rets) == 1
     if ok:
         d = {k.value: src(fl.expand_names(v, fl.cfg.node_of(rets[0]))) for k, v in zip(rets[0].value.keys, rets[0].value.values)}
-        ok = d.get("node") == "node" and d.get("edge", "").endswith("['termination_edges'][idx][0]") and d.get("bond_type", "").endswith("['termination_edges'][idx][1]['bond_type']") \
-            and "self.graph.nodes[node]" in d.get("edge", "")
+        e_, b_ = d.get("edge", ""), d.get("bond_type", "")
+        ok = d.get("node") == "node" and e_.endswith("[0]") and b_.endswith("[1]['bond_type']") and e_[:-3] == b_[: -len("[1]['bond_type']")] \
+            and e_.startswith("self.graph.nodes[node]['termination_edges'][")
         why = f"{d}"
     else:
         why = f"{len(rets)} dict return(s)"
